@@ -44,6 +44,7 @@ TRUSTED = [
 THEOREMS_DOC = {
     "C17_publish_shape": "parse_message_to_mqtt: decodable line -> (/n/c/t/a/s, payload, ack); otherwise ValueError only",
     "C17_mqtt_roundtrip": "forall prefix, forall decodable line with ack in {0,1}: publish then receive = canonical line without newline; qos>0 <-> ack=1",
+    "C17_mqtt_roundtrip_canonical": "forall prefix, forall m with carriable payload and ack in {0,1}: publish(encode m) then receive = encode m without newline",
     "C17_mqtt_roundtrip_any_qos": "forall prefix, line, delivered payload and qos: received line has ack = (qos>0) and the delivered payload",
     "C17_mqtt_accept_iff": "forall prefix/topic/payload/qos: accepted <-> topic = prefix ++ five '/'-free levels each preceded by '/'",
     "C17_mqtt_accept_value": "accepted topic -> l1;l2;l3;(qos>0);l5;payload",
@@ -542,10 +543,11 @@ def gen_recv(ctx):
     plist = prefixes(4 if ctx.tier == "quick" else 6)
     if ctx.searching and ctx.tier == "quick":
         plist = prefixes(5)
-    plan = {}
+    # hand-seeded corpus first: the D16 witnesses
+    plan = {"1/2/1/0/2": [("1/2/1/0/2/1/2/1/0/2", "p", 0)], "a": [("a/1/2/1/0/2/x/1/2/1/0/2", "", 0)], "": [("x", "", 0)]}
     k = 0
     for pi, pfx in enumerate(plist):
-        tr = []
+        tr = plan.setdefault(pfx, [])
         for si in range(22):
             for qos in (0, 1, 2):
                 h = HEADERS[k % len(HEADERS)]
@@ -825,7 +827,10 @@ def run(ctx, res):
         run_hist(ctx, res, xs)
     finally:
         shutil.rmtree(core.BUILD / "scratch" / str(os.getpid()), ignore_errors=True)
-    res.exhaustive = {"prefixes over {a,1,-,/} up to length %d x 22 topic shapes x qos 0..2" % (4 if ctx.tier == "quick" and not ctx.searching else (5 if ctx.tier == "quick" else 6)): True}
+    res.extra["exhaustive_subspaces"] = [
+        "prefixes over {a,1,-,/} up to length %d x 22 topic shapes x qos 0..2"
+        % (4 if ctx.tier == "quick" and not ctx.searching else (5 if ctx.tier == "quick" else 6)),
+        "prefixes up to length 2 and %d odd prefixes x header grid x 22 topic shapes x payload corpus x qos 0..2" % len(ODD_PREFIXES)]
     if ctx.model is not None and not ctx.searching:
         ins = [xin] + [["reset"] + s for s, _ in xs]
         outs = [xout] + [["ok"] + o for _, o in xs]
